@@ -17,7 +17,7 @@ func genStrTmplCase(r *Rng, out *outFiles, idx int) {
 	} else {
 		k := 4 + r.Intn(8)
 		pool := append([]rune{}, litAlphabet...)
-		pool = append(pool, 'b', 'x', '0', 0x1F600, '<', '>', '&', ';')
+		pool = append(pool, 'b', 'x', '0', 0x1F600, '<', '>', '&', ';', 0xFFFD, 0xFEFF, 0x10FFFF, 0xE000, 0xD7FF, 0x80, 0xA0, 0x7FF, 0x800, 0xFFFF) // U+FFFD written raw is an ordinary character
 		for j := 0; j < k; j++ {
 			s += string(pool[r.Intn(len(pool))])
 		}
